@@ -206,7 +206,7 @@ def check_len(ctx, inst="C05.len"):
             # arguments: (key length, value_len) of one record
             k = R.arg_expr(b, b.nodes[t], 1)
             v = R.arg_expr(b, b.nodes[t], 2)
-            kg = k.has_call("Vec::len") or k.has_call("slice::len") or "key" in str(k.show()) or k.k in ("arg", "local")
+            kg = k.has_call("Vec::len") or k.has_call("slice::len") or "key" in str(k.show()).lower() or k.k in ("arg", "local", "const")
             ctx.check(kg, inst, "SIBLING", owner, "first argument of total_size is a key length", b.where(t), {"expr": k.show()})
     if n_ok < LEN_FLOOR:
         ctx.anchor_missing(inst, "extent-length sites: expected >= %d, found %d" % (LEN_FLOOR, n_ok))
@@ -480,7 +480,25 @@ def check_reservation_bits(ctx):
             ctx.check(ok, inst, "PIN", b.path, "%s touches only the %s bit (the sector bits are preserved)" % (fn.rsplit("::", 1)[-1], const), b.where(x), {"expr": v.show()})
 
 
+
+def check_release_len(ctx):
+    """see rules.common.check_recovery_release_len: recovery frees an owned extent with the length of that very generation"""
+    from rules import common as _c
+    _c.check_recovery_release_len(ctx, "C05.release-len")
+
+
+def check_allocator_pair(ctx):
+    """a block has one owner only if the allocator's two views of the free set stay the same set: every mutation of `by_start`
+    is paired with the mutation of `by_size` for the *same* (size, start) run. A stale entry left in the size index is handed out
+    while the blocks still lie inside a merged free run, and the next allocation from that run hands them out again (same rule as
+    C06.pair)."""
+    from rules import C06
+    C06.check_pair(ctx, "C05.allocator-pair")
+
+
 def check(ctx):
+    check_allocator_pair(ctx)
+    check_release_len(ctx)
     check_reservation_bits(ctx)
     check_coalesce(ctx)
     check_recovery_gaps(ctx)
